@@ -57,7 +57,7 @@ SLOT_ROOT = {"node": "Node", "router": "Router", "firewall": "Firewall", "servic
 CHOICE_FIELDS = {"firewall_port_name": ("Firewall", "ports"), "firewall_port_direction": ("Firewall", "directions")}
 # component kinds whose ROOT manager carries permission rules of its own (Model/Schema.lean `Root` / `gate`)
 GATE_ROOTS = {"Node": "node", "NetworkInterface": "nic", "Service": "service", "Application": "application",
-              "FileSystem": "fileSystem", "Folder": "folder"}
+              "FileSystem": "fileSystem", "Folder": "folder", "DomainController": "domain"}
 GATE_AUX = {"Node._os_request_manager": "nodeOs", "FileSystem._delete_manager": "fsDelete"}
 SLOT_LEVEL = {"node": "node", "router": "node", "firewall": "node", "service": "service", "application": "application",
               "nic": "nic", "folder": "folder", "file": "file"}
